@@ -55,6 +55,9 @@ pub enum Op {
     ShutdownSeq,
     /// take a crash snapshot of the tree now (between commands)
     Snap,
+    /// one input line on connection `conn` through the TCP listener's authentication gate,
+    /// parse and dispatch; `{TOKEN:n}` is replaced by the last session token issued on connection n
+    Serve { conn: usize, line: String },
 }
 
 #[derive(Debug, Clone, Serialize, Deserialize, Default)]
@@ -380,6 +383,8 @@ async fn interpret(
     let sys = Arc::new(Sys::start(job.cfg.clone(), root).await);
     let mut steps = Vec::new();
     let mut bg: Vec<tokio::task::JoinHandle<Result<bool, String>>> = Vec::new();
+    let mut conns: BTreeMap<usize, snel_db::frontend::tcp::listener::verif_api::GateState> = BTreeMap::new();
+    let mut tokens: BTreeMap<usize, String> = BTreeMap::new();
     if let Some(m) = snapctl.lock().unwrap().monitor.as_mut() {
         m.attach(sys.shared.iter().map(|s| s.segment_ids.clone()).collect());
     }
@@ -509,6 +514,25 @@ async fn interpret(
                 }
                 Err(_) => st.blocked = true,
             },
+            Op::Serve { conn, line } => {
+                let mut text = line.clone();
+                for (c, t) in &tokens {
+                    text = text.replace(&format!("{{TOKEN:{c}}}"), t);
+                }
+                let gate = conns.entry(*conn).or_insert_with(|| snel_db::frontend::tcp::listener::verif_api::GateState::new(sys.auth.clone(), "127.0.0.1"));
+                let s2 = sys.clone();
+                match tokio::time::timeout(HORIZON, s2.serve_line(&text, gate)).await {
+                    Ok((reply, user, token)) => {
+                        st.note = format!("user={}", user.unwrap_or_default());
+                        if let Some(t) = token {
+                            tokens.insert(*conn, t);
+                        }
+                        st.replies.push(reply);
+                    }
+                    Err(_) => st.blocked = true,
+                }
+                sys.barrier().await;
+            }
             Op::Snap => {
                 let g = interpose::fs_quiet(|| {
                     let mut sc = snapctl.lock().unwrap();
